@@ -3,6 +3,7 @@ package checkers
 import (
 	"go/ast"
 	"go/token"
+	"go/types"
 
 	"github.com/go-critic/go-critic/checkers/internal/astwalk"
 	"github.com/go-critic/go-critic/linter"
@@ -55,7 +56,8 @@ func (c *nilValReturnChecker) VisitStmt(stmt ast.Stmt) {
 	}
 	xIsNil := expr.Op == token.EQL &&
 		typep.SideEffectFree(c.ctx.TypesInfo, expr.X) &&
-		qualifiedName(expr.Y) == "nil"
+		qualifiedName(expr.Y) == "nil" &&
+		c.isBuiltinNil(expr.Y)
 	if !xIsNil {
 		return
 	}
@@ -65,6 +67,17 @@ func (c *nilValReturnChecker) VisitStmt(stmt ast.Stmt) {
 			break
 		}
 	}
+}
+
+// isBuiltinNil reports whether x denotes the predeclared nil
+// and not a user declaration of the same name.
+func (c *nilValReturnChecker) isBuiltinNil(x ast.Expr) bool {
+	id, ok := x.(*ast.Ident)
+	if !ok {
+		return false
+	}
+	_, ok = c.ctx.TypesInfo.ObjectOf(id).(*types.Nil)
+	return ok
 }
 
 func (c *nilValReturnChecker) warn(cause, val ast.Node) {
